@@ -55,7 +55,9 @@ func RandomProgram(seed uint64, o RandomOpts) *Program {
 	if r.p(1, 2) {
 		p.Enums = append(p.Enums, Enum{Name: "Color", Values: []string{"COLOR_NONE", "COLOR_RED", "COLOR_BLUE", "COLOR_GREEN"}})
 	}
-	nameN, jsonN := 0, 0
+	nameN, jsonN, oneofN := 0, 0, 0
+	var allOneofs []string
+	oneofTaken := map[string]bool{}
 	// a shuffled pool of suffixes: alphabetical order (which `sort` follows) is unrelated to declaration
 	// order, so the members of different oneof groups and plain fields interleave
 	pool := make([]int, 200)
@@ -141,6 +143,24 @@ func RandomProgram(seed uint64, o RandomOpts) *Program {
 				g = "pick_" + letters(nameN+1)
 				nameN++
 			}
+			// names in substring relation with a oneof declared elsewhere in the file (a message that embeds
+			// the other one sees both)
+			if len(allOneofs) > 0 && r.p(1, 4) {
+				prev := allOneofs[r.n(len(allOneofs))]
+				cand := "My" + prev
+				if strings.HasPrefix(prev, "pick_") {
+					cand = prev + "_more"
+				}
+				if !oneofTaken[cand] {
+					g = cand
+				}
+			}
+			for oneofTaken[g] && strings.HasPrefix(g, "Pick") {
+				oneofN++
+				g = "Pick" + letters(len(m.Oneofs)) + letters(oneofN)
+			}
+			oneofTaken[g] = true
+			allOneofs = append(allOneofs, g)
 			m.Oneofs = append(m.Oneofs, g)
 			nb := 2 + r.n(2)
 			for b := 0; b < nb; b++ {
